@@ -1672,7 +1672,11 @@ impl Context {
                 .get_template_source(parent_id)
                 .clone()
                 .unwrap();
-            parse_function_body(&ast, new_id, signature.clone(), self)?;
+            // A template that was only declared has no body to build
+            // The instance is left without an implementation like any other declared function
+            if ast.body.is_some() {
+                parse_function_body(&ast, new_id, signature.clone(), self)?;
+            }
 
             // Return active scope
             assert_eq!(self.current_scope, parent_scope_id);
